@@ -501,7 +501,7 @@ def _sides(max_side):
 
 
 @st.composite
-def raster_spec(draw, dtype, h, w, kinds=None, nan=True):
+def raster_spec(draw, dtype, h, w, kinds=None, nan=True, inf=False):
     """JSON raster spec; values by construction inside the dtype's range, |v| <= 1e6."""
     n = h * w
     isf = dtype.startswith("float")
@@ -532,6 +532,9 @@ def raster_spec(draw, dtype, h, w, kinds=None, nan=True):
             cut = {"some": 1, "half": 4, "most": 7}[mode]
             marks = draw(st.lists(st.integers(0, 7), min_size=n, max_size=n))
             flat = ["nan" if m < cut else v for v, m in zip(flat, marks)]
+    if isf and inf:
+        for _ in range(draw(st.integers(1, 3))):     # a few +-inf cells: values like any other for max / min / range
+            flat[draw(st.integers(0, n - 1))] = draw(st.sampled_from(["inf", "-inf"]))
     return {"dtype": dtype, "data": [flat[i * w:(i + 1) * w] for i in range(h)]}
 
 
@@ -595,9 +598,14 @@ def stats_cases(draw, combos, max_side):
     h = draw(_sides(max_side))
     w = draw(_sides(max_side))
     dtype, kdtype = draw(st.sampled_from(combos))
-    ras = draw(raster_spec(dtype, h, w))
+    with_inf = dtype.startswith("float") and draw(st.integers(0, 7)) == 0
+    ras = draw(raster_spec(dtype, h, w, inf=with_inf))
     kern = draw(kernel01(h, w, kdtype))
     case = {"sub": "stats", "raster": ras, "kernel": kern}
+    if with_inf:
+        # statistics that stay defined with infinite cells (sums of +inf and -inf are not)
+        case["stats"] = draw(st.lists(st.sampled_from(["max", "min", "range"]), min_size=1, max_size=3, unique=True))
+        return case
     if draw(st.booleans()):
         case["stats"] = draw(st.lists(st.sampled_from(F.STATS), min_size=1, max_size=7, unique=True))
     if draw(st.integers(0, 3)) == 0:
